@@ -143,3 +143,22 @@ pub open spec fn match_rule_ok(scrut: ExprId, arms: Seq<HirArm>, r: Expr, rec: S
           pat_checked(arms[i].pat, expr_ty(*x), (#[trigger] a@[i]).pat) && inferred(arms[i].body, a@[i].body) && rec.contains(Constraint::TypeEqual(expr_ty(a@[i].body), ty))
 }
 pub open spec fn ty_of_expr(e: Expr) -> Ty { expr_ty(e) }
+
+// ---- constructor application (fragment constr_args of Typer::infer_constructor_expr) ----
+impl VClone for Constructor { #[verifier::external_body] fn vclone(&self) -> (r: Self) { unimplemented!() } }
+impl VClone for Vec<Ty> { #[verifier::external_body] fn vclone(&self) -> (r: Self) { unimplemented!() } }
+impl VClone for Box<Ty> { #[verifier::external_body] fn vclone(&self) -> (r: Self) { unimplemented!() } }
+impl Typer { #[verifier::external_body] pub fn record_constructor_expr(&mut self, e: ExprId, c: Constructor) ensures final(self).constraints() == old(self).constraints(), final(self).recorded() == old(self).recorded() { unimplemented!() } }
+pub open spec fn constr_ok(scheme: Ty, args: Seq<ExprId>, c: Constructor, r: Expr, rec: Set<Constraint>) -> bool {
+    r matches Expr::EConstr { constructor, args: a, ty } && constructor == c
+    && exists|inst: Ty| #[trigger] is_inst(scheme, inst) && (match inst {
+        // a constructor with fields: each argument is CHECKED against the declared type of its field, in order; the value has the constructor's result type;
+        // the instantiated constructor type is equated with (types of the elaborated arguments) -> that result type
+        Ty::TFunc { params, ret_ty } => ty == *ret_ty
+            && (params@.len() > 0 ==> a@.len() <= args.len() && (params@.len() == args.len() ==> a@.len() == args.len())
+                  && forall|i: int| 0 <= i < a@.len() ==> checked_as(#[trigger] args[i], params@[i], a@[i]))
+            && (a@.len() > 0 ==> exists|ft: Ty| #[trigger] rec.contains(Constraint::TypeEqual(inst, ft)) && call_site_ty(ft, a@, ty)),
+        // a constant constructor: the value has the constructor's own type
+        _ => ty == inst,
+    })
+}
